@@ -109,5 +109,6 @@ class Handler(object):
                 with io.indent(2):
                     io.write_line("inside the scope")
                     raise_it(self.outcome["raise"])
+                return 0        # only reached when the scope swallowed the exception
             raise_it(self.outcome["raise"])
         return value_of(self.outcome["ret"])
